@@ -1539,6 +1539,54 @@ func massRemovalProbe(m *meta, rng *rand.Rand, round int) {
 	m.count("mass_removal_probes")
 }
 
+// closeSyncStorm (C08, C07): many Sync and Clear callers parked on the full rings of a two-shard cache while Close
+// runs: every one of them returns (with an error or not) once Close has broadcast shutdown.
+func closeSyncStorm(m *meta, rng *rand.Rand, round int) {
+	pol := pick(rng, []kioshun.EvictionPolicy{kioshun.LRU, kioshun.SieveTinyLFU, kioshun.FIFO, kioshun.LFU})
+	ctx := fmt.Sprintf("close/sync storm round %d policy %v", round, pol)
+	watch(ctx)
+	defer unwatch()
+	for it := 0; it < 8; it++ {
+		c, err := kioshun.New[int, int](kioshun.Config{MaxSize: 64, ShardCount: 2, EvictionPolicy: pol, WriteBufferSize: 2, WriteBatchSize: 1})
+		must(err)
+		var wg sync.WaitGroup
+		var stop atomic.Bool
+		var inflight atomic.Int64
+		for g := 0; g < 40; g++ {
+			wg.Add(1)
+			go func(g int) {
+				defer wg.Done()
+				for i := 0; !stop.Load(); i++ {
+					inflight.Add(1)
+					switch {
+					case g < 24:
+						c.Sync()
+					case g < 28:
+						c.Clear()
+					default:
+						c.SetAsync((g*31+i)%64, i, kioshun.NoExpiration)
+					}
+					inflight.Add(-1)
+				}
+			}(g)
+		}
+		time.Sleep(time.Duration(1+rng.Intn(4)) * time.Millisecond)
+		c.Close()
+		stop.Store(true)
+		done := make(chan struct{})
+		go func() { wg.Wait(); close(done) }()
+		select {
+		case <-done:
+		case <-time.After(3 * time.Second):
+			for _, p := range []string{"C08", "C07"} {
+				m.violate(p, fmt.Sprintf("%s: 24 Sync, 4 Clear and 12 SetAsync loopers on a 2-shard cache with rings of 2; Close returned, yet %d calls were still blocked 3 s later (callers blocked at shutdown are released)", ctx, inflight.Load()), ctx)
+			}
+			return
+		}
+	}
+	m.count("close_sync_storms")
+}
+
 // deleteBehindQueue (C01, C04): a SetAsync(k,v2) that was accepted and is still queued (the drain token is busy), then
 // Delete(k): the Delete began after the SetAsync returned, so after Sync the key must be gone.
 func deleteBehindQueue(m *meta, rng *rand.Rand, round int) {
@@ -2025,7 +2073,7 @@ func streamConc(o opts) {
 			m.nontrivial(fmt.Sprintf("stress/p%d/m%d/s%d/a%v", pol, sc.conf.MaxSize, sc.conf.ShardCount, sc.async))
 		case 2:
 			asyncOrder(m, rng, r)
-			for j := 0; j < 14; j++ {
+			for j := 0; j < 10; j++ {
 				closeRaces(m, rng, r)
 			}
 			expiryRace(m, rng, r)
@@ -2044,6 +2092,7 @@ func streamConc(o opts) {
 			deleteBehindQueue(m, rng, r)
 			inlineOvertake(m, rng, r)
 			closedSetAsync(m, rng, r)
+			closeSyncStorm(m, rng, r)
 			doubleClear(m, rng, r)
 			m.nontrivial(fmt.Sprintf("async+close/%d", r%16))
 		case 3:
